@@ -1,51 +1,458 @@
-use hydro_lang::live_collections::stream::{NoOrder, TotalOrder};
+//! Hand-written programs: corpus (C28), keyed / ordered operators (C29), operators with
+//! library-internal order / retry assumptions applied to their weakest input type (C32), and
+//! producers of monotone / bounded-value collections (C33).
+//!
+//! Every program has the uniform shape `fn(a, b, s)` and exports exactly one `out`.
+//! `nondet!()` appears only (1) in the output adapters of `adapt.rs` and (2) for tick-scoped
+//! operators of C32, in the INPUT adapter `.batch(&tick, nondet!(..))` (the driver then delivers
+//! the whole input in a single tick, so the batch is the whole input).
+#![allow(clippy::all, unused_variables)]
+use hydro_lang::live_collections::keyed_singleton::{BoundedValue, MonotonicKeys, MonotonicValue};
+use hydro_lang::live_collections::singleton::Monotonic;
+use hydro_lang::live_collections::stream::{AtLeastOnce, NoOrder};
 use hydro_lang::prelude::*;
 
-use crate::enc::enc;
+use crate::adapt::*;
 
-pub type P<'a> = Process<'a, ()>;
-pub type SP<'a> = Stream<(i32, i32), P<'a>, Unbounded>;
-pub type SG<'a> = Singleton<i32, P<'a>, Bounded>;
+// ------------------------------------------------------------------------------------------
+// Corpus for C28 (beyond the generated family): singleton / optional / keyed-singleton algebra,
+// bounded sources, and the hydro_test `local` programs that fit embedded I/O.
+// ------------------------------------------------------------------------------------------
 
-pub fn h_map<'a>(a: SP<'a>, _b: SP<'a>, _s: SG<'a>) {
-    a.map(q!(|(k, v)| (k, v + 1))).map(q!(|x| enc(x))).embedded_output("out");
+/// hydro_test::local::singleton_input::prefix_names, over integers.
+pub fn c_prefix<'a>(a: SP<'a>, b: SP<'a>, s: SG<'a>) {
+    out_total(a.cross_singleton(s).map(q!(|((k, v), s)| (k, v + 100 * s))));
 }
 
-pub fn h_join<'a>(a: SP<'a>, b: SP<'a>, _s: SG<'a>) {
-    a.join(b)
-        .map(q!(|x| enc(x)))
-        .assume_ordering::<TotalOrder>(nondet!(/** output adapter */))
-        .embedded_output("out");
+/// hydro_test::local::capitalize, over integers.
+pub fn c_capitalize<'a>(a: SP<'a>, b: SP<'a>, s: SG<'a>) {
+    out_total(a.map(q!(|(k, v)| (k, v * 7))));
 }
 
-pub fn h_fold<'a>(a: SP<'a>, _b: SP<'a>, _s: SG<'a>) {
-    let tick = a.location().tick();
-    a.fold(q!(|| 0i32), q!(|acc, (_k, v)| *acc = *acc * 3 + v))
-        .snapshot(&tick, nondet!(/** output adapter */))
-        .all_ticks()
-        .map(q!(|x| enc(x)))
-        .embedded_output("out");
+/// Bounded singleton turned into a stream and chained in front of the input.
+pub fn c_into_stream_chain<'a>(a: SP<'a>, b: SP<'a>, s: SG<'a>) {
+    out_total(s.into_stream().map(q!(|s| (9, s))).chain(a));
 }
 
-pub fn h_keyed_fold<'a>(a: SP<'a>, _b: SP<'a>, _s: SG<'a>) {
-    let tick = a.location().tick();
-    a.into_keyed()
-        .fold(q!(|| 0i32), q!(|acc, v| *acc = *acc * 3 + v))
-        .snapshot(&tick, nondet!(/** output adapter */))
-        .entries()
-        .all_ticks()
-        .map(q!(|x| enc(x)))
-        .assume_ordering::<TotalOrder>(nondet!(/** output adapter */))
-        .embedded_output("out");
+/// `sort` of a bounded source, chained in front of the input.
+pub fn c_sort_chain<'a>(a: SP<'a>, b: SP<'a>, s: SG<'a>) {
+    let p = a.location().clone();
+    out_total(p.source_iter(q!(vec![(1, 2), (0, 5), (0, 1)])).sort().chain(a));
 }
 
-pub fn h_cross_singleton<'a>(a: SP<'a>, _b: SP<'a>, s: SG<'a>) {
-    a.cross_singleton(s).map(q!(|x| enc(x))).embedded_output("out");
+pub fn c_collect_vec<'a>(a: SP<'a>, b: SP<'a>, s: SG<'a>) {
+    let p = a.location().clone();
+    out_singleton(&p, a.collect_vec());
 }
 
-pub fn h_unordered<'a>(a: SP<'a>, b: SP<'a>, _s: SG<'a>) {
-    let m: Stream<_, _, _, NoOrder> = a.merge_unordered(b);
-    m.map(q!(|x| enc(x)))
-        .assume_ordering::<TotalOrder>(nondet!(/** output adapter */))
-        .embedded_output("out");
+pub fn c_limit<'a>(a: SP<'a>, b: SP<'a>, s: SG<'a>) {
+    out_total(a.limit(q!(2)));
 }
+
+/// Two bounded singletons zipped (embedded singleton x fold of a bounded source), crossed with the input.
+pub fn c_zip_count_fold<'a>(a: SP<'a>, b: SP<'a>, s: SG<'a>) {
+    let p = a.location().clone();
+    let f = p.source_iter(q!(vec![5, 6])).fold(q!(|| 0i32), q!(|acc, v| *acc += v));
+    out_total(a.cross_singleton(s.zip(f)).map(q!(|((k, v), (s, f))| (k, v + 100 * s + 1000 * f))));
+}
+
+/// Optional algebra: `max.or(min of the other input)` and `unwrap_or`.
+pub fn c_optional_or<'a>(a: SP<'a>, b: SP<'a>, s: SG<'a>) {
+    let p = a.location().clone();
+    out_optional(&p, a.filter(q!(|&(_k, v)| v == 2)).max().or(b.min()));
+}
+
+pub fn c_singleton_filter<'a>(a: SP<'a>, b: SP<'a>, s: SG<'a>) {
+    let p = a.location().clone();
+    out_optional(&p, a.count().ignore_monotonic().filter(q!(|c| *c % 2 == 1)));
+}
+
+pub fn c_is_some_and<'a>(a: SP<'a>, b: SP<'a>, s: SG<'a>) {
+    let p = a.location().clone();
+    out_singleton(&p, a.first().is_some());
+}
+
+/// Key count of a keyed singleton with changing values (library path: snapshot + latest).
+pub fn c_key_count<'a>(a: SP<'a>, b: SP<'a>, s: SG<'a>) {
+    let p = a.location().clone();
+    out_singleton(
+        &p,
+        a.into_keyed().fold(q!(|| 0i32), q!(|acc, v| *acc = acc.wrapping_mul(3).wrapping_add(v))).key_count(),
+    );
+}
+
+pub fn c_key_count_bounded_value<'a>(a: SP<'a>, b: SP<'a>, s: SG<'a>) {
+    let p = a.location().clone();
+    out_singleton(&p, a.into_keyed().first().key_count());
+}
+
+/// Keyed join of the two inputs.
+pub fn c_join_keyed<'a>(a: SP<'a>, b: SP<'a>, s: SG<'a>) {
+    out_unordered(
+        a.into_keyed().join_keyed_stream(b.into_keyed()).entries().map(q!(|(k, (v1, v2))| (k, v1 * 10 + v2))),
+    );
+}
+
+/// Keyed merge of the two inputs folded per key with a commutative function.
+pub fn c_keyed_merge_fold<'a>(a: SP<'a>, b: SP<'a>, s: SG<'a>) {
+    let p = a.location().clone();
+    out_keyed_singleton(
+        &p,
+        a.into_keyed()
+            .merge_unordered(b.into_keyed())
+            .fold(q!(|| 0i32), q!(|acc, v| *acc += v, commutative = manual_proof!(/** integer sum */))),
+    );
+}
+
+/// Join against a bounded build side keeps the probe order.
+pub fn c_join_bounded<'a>(a: SP<'a>, b: SP<'a>, s: SG<'a>) {
+    let p = a.location().clone();
+    out_total(a.join(p.source_iter(q!(vec![(0, 5), (1, 6), (0, 7)]))).map(q!(|(k, (v1, v2))| (k, v1 * 10 + v2))));
+}
+
+/// get_max_key of a bounded-value keyed singleton.
+pub fn c_get_max_key<'a>(a: SP<'a>, b: SP<'a>, s: SG<'a>) {
+    let p = a.location().clone();
+    out_optional(&p, a.into_keyed().first().get_max_key());
+}
+
+// ------------------------------------------------------------------------------------------
+// C29: keyed operators (per-key order, projection independence). Output elements are
+// `(key, value)`; the harness groups by key.
+// ------------------------------------------------------------------------------------------
+
+pub fn k_id<'a>(a: SP<'a>, b: SP<'a>, s: SG<'a>) {
+    out_keyed_total(a.into_keyed());
+}
+pub fn k_map<'a>(a: SP<'a>, b: SP<'a>, s: SG<'a>) {
+    out_keyed_total(a.into_keyed().map(q!(|v| v * 2 + 1)));
+}
+pub fn k_map_with_key<'a>(a: SP<'a>, b: SP<'a>, s: SG<'a>) {
+    out_keyed_total(a.into_keyed().map_with_key(q!(|(k, v)| v + 10 * k)));
+}
+pub fn k_filter<'a>(a: SP<'a>, b: SP<'a>, s: SG<'a>) {
+    out_keyed_total(a.into_keyed().filter(q!(|v| *v != 1)));
+}
+pub fn k_filter_map<'a>(a: SP<'a>, b: SP<'a>, s: SG<'a>) {
+    out_keyed_total(a.into_keyed().filter_map(q!(|v| if v > 0 { Some(v - 1) } else { None })));
+}
+pub fn k_flat_map_ordered<'a>(a: SP<'a>, b: SP<'a>, s: SG<'a>) {
+    out_keyed_total(a.into_keyed().flat_map_ordered(q!(|v| vec![v, v + 10])));
+}
+pub fn k_inspect<'a>(a: SP<'a>, b: SP<'a>, s: SG<'a>) {
+    out_keyed_total(a.into_keyed().inspect(q!(|_v| {})));
+}
+pub fn k_scan<'a>(a: SP<'a>, b: SP<'a>, s: SG<'a>) {
+    out_keyed_total(a.into_keyed().scan(
+        q!(|| 0i32),
+        q!(|acc, v| {
+            *acc = acc.wrapping_mul(3).wrapping_add(v);
+            Some(*acc)
+        }),
+    ));
+}
+pub fn k_enumerate<'a>(a: SP<'a>, b: SP<'a>, s: SG<'a>) {
+    out_keyed_total(a.into_keyed().enumerate().map(q!(|(i, v)| v * 10 + i as i32)));
+}
+pub fn k_limit<'a>(a: SP<'a>, b: SP<'a>, s: SG<'a>) {
+    out_keyed_total(a.into_keyed().limit(q!(2)));
+}
+pub fn k_cross_singleton<'a>(a: SP<'a>, b: SP<'a>, s: SG<'a>) {
+    out_keyed_total(a.into_keyed().cross_singleton(s).map(q!(|(v, s)| v + 100 * s)));
+}
+pub fn k_filter_key_not_in<'a>(a: SP<'a>, b: SP<'a>, s: SG<'a>) {
+    let p = a.location().clone();
+    out_keyed_total(a.into_keyed().filter_key_not_in(p.source_iter(q!(vec![1]))));
+}
+pub fn k_join_keyed_singleton<'a>(a: SP<'a>, b: SP<'a>, s: SG<'a>) {
+    let p = a.location().clone();
+    let ks = p.source_iter(q!(vec![(0, 5), (1, 6)])).into_keyed().first();
+    out_keyed_total(a.into_keyed().join_keyed_singleton(ks).map(q!(|(v, w)| v * 10 + w)));
+}
+pub fn k_fold<'a>(a: SP<'a>, b: SP<'a>, s: SG<'a>) {
+    let p = a.location().clone();
+    out_keyed_singleton(&p, a.into_keyed().fold(q!(|| 0i32), q!(|acc, v| *acc = acc.wrapping_mul(3).wrapping_add(v))));
+}
+pub fn k_reduce<'a>(a: SP<'a>, b: SP<'a>, s: SG<'a>) {
+    let p = a.location().clone();
+    out_keyed_singleton(&p, a.into_keyed().reduce(q!(|acc, v| *acc = acc.wrapping_mul(3).wrapping_add(v))));
+}
+pub fn k_value_counts<'a>(a: SP<'a>, b: SP<'a>, s: SG<'a>) {
+    let p = a.location().clone();
+    out_keyed_singleton(&p, a.into_keyed().value_counts());
+}
+pub fn k_first<'a>(a: SP<'a>, b: SP<'a>, s: SG<'a>) {
+    let p = a.location().clone();
+    out_keyed_bounded_value(&p, a.into_keyed().first());
+}
+pub fn k_fold_early_stop<'a>(a: SP<'a>, b: SP<'a>, s: SG<'a>) {
+    let p = a.location().clone();
+    out_keyed_bounded_value(
+        &p,
+        a.into_keyed().fold_early_stop(
+            q!(|| 0i32),
+            q!(|acc, v| {
+                *acc = acc.wrapping_mul(3).wrapping_add(v);
+                *acc >= 3
+            }),
+        ),
+    );
+}
+/// `get` of one key keeps that key's order (key taken from the embedded singleton).
+pub fn k_get<'a>(a: SP<'a>, b: SP<'a>, s: SG<'a>) {
+    out_total(a.into_keyed().get(s.map(q!(|s| s % 2))).map(q!(|v| (0, v))));
+}
+/// Unordered keyed stream: per-key multisets.
+pub fn k_unique<'a>(a: SP<'a>, b: SP<'a>, s: SG<'a>) {
+    out_unordered(a.into_keyed().unique().entries());
+}
+
+// ------------------------------------------------------------------------------------------
+// C32: operators that internally call assume_ordering_trusted / assume_retries_trusted, applied to
+// the weakest input type they accept.
+// ------------------------------------------------------------------------------------------
+
+type Weak<'a> = Stream<(i32, i32), P<'a>, Unbounded, NoOrder, AtLeastOnce>;
+fn weakest<'a>(a: SP<'a>) -> Weak<'a> {
+    a.weaken_ordering::<NoOrder>().weaken_retries::<AtLeastOnce>()
+}
+
+pub fn w_max<'a>(a: SP<'a>, b: SP<'a>, s: SG<'a>) {
+    let p = a.location().clone();
+    out_optional(&p, weakest(a).max());
+}
+pub fn w_min<'a>(a: SP<'a>, b: SP<'a>, s: SG<'a>) {
+    let p = a.location().clone();
+    out_optional(&p, weakest(a).min());
+}
+pub fn w_count<'a>(a: SP<'a>, b: SP<'a>, s: SG<'a>) {
+    let p = a.location().clone();
+    out_singleton(&p, a.weaken_ordering::<NoOrder>().count());
+}
+pub fn w_first<'a>(a: SP<'a>, b: SP<'a>, s: SG<'a>) {
+    let p = a.location().clone();
+    out_optional(&p, a.weaken_retries::<AtLeastOnce>().first());
+}
+pub fn w_last<'a>(a: SP<'a>, b: SP<'a>, s: SG<'a>) {
+    let p = a.location().clone();
+    out_optional(&p, a.weaken_retries::<AtLeastOnce>().last());
+}
+pub fn w_weaken_ordering<'a>(a: SP<'a>, b: SP<'a>, s: SG<'a>) {
+    out_unordered(a.weaken_ordering::<NoOrder>());
+}
+pub fn w_weaken_retries<'a>(a: SP<'a>, b: SP<'a>, s: SG<'a>) {
+    out_unordered(a.weaken_retries::<AtLeastOnce>());
+}
+pub fn w_make_total_exact<'a>(a: SP<'a>, b: SP<'a>, s: SG<'a>) {
+    out_total(a.make_totally_ordered().make_exactly_once());
+}
+pub fn w_keyed_weaken<'a>(a: SP<'a>, b: SP<'a>, s: SG<'a>) {
+    out_unordered(
+        a.into_keyed().weaken_ordering::<NoOrder>().weaken_retries::<AtLeastOnce>().entries(),
+    );
+}
+pub fn w_keyed_make_total_exact<'a>(a: SP<'a>, b: SP<'a>, s: SG<'a>) {
+    out_keyed_total(a.into_keyed().make_totally_ordered().make_exactly_once());
+}
+pub fn w_keyed_value_counts<'a>(a: SP<'a>, b: SP<'a>, s: SG<'a>) {
+    let p = a.location().clone();
+    out_keyed_singleton(&p, a.into_keyed().weaken_ordering::<NoOrder>().value_counts());
+}
+/// Tick-scoped: `is_empty` of an unordered at-least-once batch.
+pub fn w_is_empty<'a>(a: SP<'a>, b: SP<'a>, s: SG<'a>) {
+    let p = a.location().clone();
+    let tick = p.tick();
+    out_total(
+        weakest(a)
+            .batch(&tick, nondet!(/** input adapter: the driver delivers the whole input in one tick */))
+            .is_empty()
+            .all_ticks(),
+    );
+}
+/// Tick-scoped: `repeat_with_keys` (keys from `b`, values from the weakened `a`).
+pub fn w_repeat_with_keys<'a>(a: SP<'a>, b: SP<'a>, s: SG<'a>) {
+    let p = a.location().clone();
+    let tick = p.tick();
+    let keys = b
+        .batch(&tick, nondet!(/** input adapter: the driver delivers the whole input in one tick */))
+        .into_keyed()
+        .first();
+    out_unordered(
+        weakest(a)
+            .batch(&tick, nondet!(/** input adapter: the driver delivers the whole input in one tick */))
+            .repeat_with_keys(keys)
+            .entries()
+            .all_ticks(),
+    );
+}
+/// Keyed-singleton accessors over a keyed singleton whose physical entry order varies.
+pub fn w_ks_into_singleton<'a>(a: SP<'a>, b: SP<'a>, s: SG<'a>) {
+    let p = a.location().clone();
+    out_singleton(
+        &p,
+        a.into_keyed()
+            .weaken_ordering::<NoOrder>()
+            .fold(q!(|| 0i32), q!(|acc, v| *acc += v, commutative = manual_proof!(/** integer sum */)))
+            .into_singleton()
+            .map(q!(|m| {
+                let mut v: Vec<(i32, i32)> = m.into_iter().collect();
+                v.sort();
+                v
+            })),
+    );
+}
+pub fn w_ks_key_count<'a>(a: SP<'a>, b: SP<'a>, s: SG<'a>) {
+    let p = a.location().clone();
+    out_singleton(
+        &p,
+        a.into_keyed()
+            .weaken_ordering::<NoOrder>()
+            .fold(q!(|| 0i32), q!(|acc, v| *acc += v, commutative = manual_proof!(/** integer sum */)))
+            .key_count(),
+    );
+}
+pub fn w_ks_into_singleton_bounded_value<'a>(a: SP<'a>, b: SP<'a>, s: SG<'a>) {
+    let p = a.location().clone();
+    out_singleton(
+        &p,
+        a.into_keyed().first().into_singleton().map(q!(|m| {
+            let mut v: Vec<(i32, i32)> = m.into_iter().collect();
+            v.sort();
+            v
+        })),
+    );
+}
+pub fn w_ks_key_count_bounded_value<'a>(a: SP<'a>, b: SP<'a>, s: SG<'a>) {
+    let p = a.location().clone();
+    out_singleton(&p, a.into_keyed().first().key_count());
+}
+pub fn w_ks_get_max_key<'a>(a: SP<'a>, b: SP<'a>, s: SG<'a>) {
+    let p = a.location().clone();
+    out_optional(&p, a.into_keyed().first().get_max_key());
+}
+
+// ------------------------------------------------------------------------------------------
+// C33: producers of monotone / bounded-value collections. The `let x: <type> = ..` annotations
+// make the compiler confirm which promise the library attaches to each operator.
+// ------------------------------------------------------------------------------------------
+
+pub fn m_count<'a>(a: SP<'a>, b: SP<'a>, s: SG<'a>) {
+    let p = a.location().clone();
+    let x: Singleton<usize, P<'a>, Monotonic> = a.count();
+    out_singleton(&p, x);
+}
+pub fn m_count_merge<'a>(a: SP<'a>, b: SP<'a>, s: SG<'a>) {
+    let p = a.location().clone();
+    let x: Singleton<usize, P<'a>, Monotonic> = a.merge_unordered(b).count();
+    out_singleton(&p, x);
+}
+pub fn m_count_join<'a>(a: SP<'a>, b: SP<'a>, s: SG<'a>) {
+    let p = a.location().clone();
+    let x: Singleton<usize, P<'a>, Monotonic> = a.join(b).count();
+    out_singleton(&p, x);
+}
+pub fn m_count_unique<'a>(a: SP<'a>, b: SP<'a>, s: SG<'a>) {
+    let p = a.location().clone();
+    let x: Singleton<usize, P<'a>, Monotonic> = a.unique().count();
+    out_singleton(&p, x);
+}
+pub fn m_fold_sum<'a>(a: SP<'a>, b: SP<'a>, s: SG<'a>) {
+    let p = a.location().clone();
+    let x: Singleton<i32, P<'a>, Monotonic> = a.fold(
+        q!(|| 0i32),
+        q!(|acc, (_k, v)| *acc += v, monotone = manual_proof!(/** all values are >= 0 */)),
+    );
+    out_singleton(&p, x);
+}
+pub fn m_fold_max<'a>(a: SP<'a>, b: SP<'a>, s: SG<'a>) {
+    let p = a.location().clone();
+    let x: Singleton<i32, P<'a>, Monotonic> = a.fold(
+        q!(|| 0i32),
+        q!(
+            |acc, (_k, v)| {
+                if v > *acc {
+                    *acc = v
+                }
+            },
+            monotone = manual_proof!(/** running maximum */)
+        ),
+    );
+    out_singleton(&p, x);
+}
+pub fn m_count_map<'a>(a: SP<'a>, b: SP<'a>, s: SG<'a>) {
+    let p = a.location().clone();
+    let x: Singleton<usize, P<'a>, Monotonic> =
+        a.count().map(q!(|c| c * 2 + 1, order_preserving = manual_proof!(/** affine with positive slope */)));
+    out_singleton(&p, x);
+}
+pub fn m_keyed_value_counts<'a>(a: SP<'a>, b: SP<'a>, s: SG<'a>) {
+    let p = a.location().clone();
+    let x: KeyedSingleton<i32, usize, P<'a>, MonotonicValue> = a.into_keyed().value_counts();
+    out_keyed_singleton(&p, x);
+}
+pub fn m_keyed_value_counts_merge<'a>(a: SP<'a>, b: SP<'a>, s: SG<'a>) {
+    let p = a.location().clone();
+    let x: KeyedSingleton<i32, usize, P<'a>, MonotonicValue> =
+        a.into_keyed().merge_unordered(b.into_keyed()).value_counts();
+    out_keyed_singleton(&p, x);
+}
+pub fn m_keyed_fold_monotone<'a>(a: SP<'a>, b: SP<'a>, s: SG<'a>) {
+    let p = a.location().clone();
+    let x: KeyedSingleton<i32, i32, P<'a>, MonotonicValue> = a.into_keyed().fold(
+        q!(|| 0i32),
+        q!(|acc, v| *acc += v, monotone = manual_proof!(/** all values are >= 0 */)),
+    );
+    out_keyed_singleton(&p, x);
+}
+pub fn m_keyed_fold_plain<'a>(a: SP<'a>, b: SP<'a>, s: SG<'a>) {
+    let p = a.location().clone();
+    let x: KeyedSingleton<i32, i32, P<'a>, MonotonicKeys> =
+        a.into_keyed().fold(q!(|| 0i32), q!(|acc, v| *acc = acc.wrapping_mul(3).wrapping_sub(v)));
+    out_keyed_singleton(&p, x);
+}
+pub fn m_keyed_value_counts_map<'a>(a: SP<'a>, b: SP<'a>, s: SG<'a>) {
+    let p = a.location().clone();
+    let x: KeyedSingleton<i32, i32, P<'a>, MonotonicKeys> =
+        a.into_keyed().value_counts().map(q!(|c| 10 - c as i32));
+    out_keyed_singleton(&p, x);
+}
+pub fn m_keyed_first<'a>(a: SP<'a>, b: SP<'a>, s: SG<'a>) {
+    let p = a.location().clone();
+    let x: KeyedSingleton<i32, i32, P<'a>, BoundedValue> = a.into_keyed().first();
+    out_keyed_bounded_value_snapshots(&p, x);
+}
+pub fn m_keyed_first_map_filter<'a>(a: SP<'a>, b: SP<'a>, s: SG<'a>) {
+    let p = a.location().clone();
+    let x: KeyedSingleton<i32, i32, P<'a>, BoundedValue> =
+        a.into_keyed().first().map(q!(|v| v + 5)).filter(q!(|v| *v != 6));
+    out_keyed_bounded_value_snapshots(&p, x);
+}
+pub fn m_keyed_fold_early_stop<'a>(a: SP<'a>, b: SP<'a>, s: SG<'a>) {
+    let p = a.location().clone();
+    let x: KeyedSingleton<i32, i32, P<'a>, BoundedValue> = a.into_keyed().fold_early_stop(
+        q!(|| 0i32),
+        q!(|acc, v| {
+            *acc += v;
+            *acc >= 2
+        }),
+    );
+    out_keyed_bounded_value_snapshots(&p, x);
+}
+pub fn m_keyed_first_entries<'a>(a: SP<'a>, b: SP<'a>, s: SG<'a>) {
+    let p = a.location().clone();
+    let x: KeyedSingleton<i32, i32, P<'a>, BoundedValue> = a.into_keyed().first();
+    out_keyed_bounded_value(&p, x);
+}
+
+/// Snapshot history of a bounded-value keyed singleton (through the library's `into_singleton`).
+pub fn out_keyed_bounded_value_snapshots<'a>(p: &P<'a>, x: KeyedSingleton<i32, i32, P<'a>, BoundedValue>) {
+    out_singleton(
+        p,
+        x.into_singleton().map(q!(|m| {
+            let mut v: Vec<(i32, i32)> = m.into_iter().collect();
+            v.sort();
+            v
+        })),
+    );
+}
+
